@@ -7,6 +7,8 @@ CHECKS = {
  "C01": ("E1 symx", E1 + "; obligation: string equality of two listings", "§6 C01"),
  "C02": ("E1 symx + REF-DECODER + REF-ISO", E1 + "; obligation: independent decoder is a left inverse up to isomorphism; near-miss collision queries", "§6 C02"),
  "C04": ("E1 symx", E1 + "; obligation: canonical labelled graphs of two listings equal", "§6 C04"),
+ "C07": ("E1 symx + REF-V3000", E1 + "; REF-V3000 renderings with symbolic fields through the real reader; obligation: graph equals the stated molecule attribute for attribute", "§6 C07"),
+ "C08": ("E1 symx + REF-V2000 + REF-V3000", E1 + "; V2000 and V3000 renderings of one abstract molecule through the real reader; obligations: both graphs equal the molecule, strings equal", "§6 C08"),
  "C12": ("E1 symx", E1 + "; obligations: attribute terms carried, input snapshots unchanged, repeat calls equal", "§6 C12"),
  "C13": ("E1 symx + REF-ISO", E1 + "; obligations: classes label-independent, equitable, closed under colour-preserving automorphisms", "§6 C13"),
  "C15": ("E1 symx + growth monitor + scaled replay", E1 + " (small molecules); stack-depth growth extrapolation with one real scaled run per witness family", "§6 C15"),
@@ -16,6 +18,8 @@ TEXT = {
  "C01": "Bounded model checking by symbolic execution: every labelled graph up to the stated size, every label placement, all integer label values (decided by z3, not sampled), every generator relisting. Right level because the property quantifies over all molecules and relabelings and the interesting cases (partially labelled orbits) are rare.",
  "C02": "Bounded: for every molecule of the strata and all label values the emitted string decodes (independent reader) to a graph provably isomorphic to the input, hence no two non-isomorphic molecules of the strata share a string; plus direct collision queries on near-miss pairs.",
  "C04": "Bounded: for every molecule of the strata, all label values and every generator relisting the two canonical graphs are equal node for node and edge for edge.",
+ "C07": "Bounded: every rendering choice of the stated families (property subsets/orders, extra keyword, index assignment, file order, D/T, star atoms, blank runs, continuation column) with all numeric field values symbolic; the reader's graph equals the stated molecule.",
+ "C08": "Bounded: every encoding choice (charge code / property lines / stale codes / groupings / group orders / unrelated lines / atom lists / D,T with ISO) with all property-line values symbolic through the fixed-width fields; V2000 and V3000 graphs equal the abstract molecule and the strings agree.",
  "C12": "Bounded: for every molecule of the strata with symbolic charges/bond types, canonicalization is a bijective renaming carrying every attribute term; inputs are unchanged; call histories of length <= 3 repeat.",
  "C13": "Bounded: classes equal across relistings, equitable (solver proves invariant codes equal within a class) and no colour-preserving skeleton automorphism separates a class.",
  "C15": "Bounded for small molecules (no exception on any path, all label values). For sizes in the thousands: measured stack-depth growth plus scaled real runs — an argument with replay, stated as such.",
@@ -57,7 +61,7 @@ def build(claimed, na_extra):
 if __name__ == "__main__":
     import sys
     claimed = [p for p in sorted(CHECKS)]
-    pending = [p for p in ["C03", "C05", "C06", "C07", "C08", "C09", "C10", "C11"] if p not in CHECKS]
+    pending = [p for p in ["C03", "C05", "C06", "C09", "C10", "C11"] if p not in CHECKS]
     na_extra = [{"property_id": p, "reason": "check under construction in this round; not yet claimed"} for p in pending]
     json.dump(build(claimed, na_extra), open("/verif/MANIFEST.json", "w"), indent=1)
     print("claimed", claimed, "pending", pending)
